@@ -6,6 +6,7 @@ pub mod flt;
 pub mod hashers;
 pub mod rngs;
 pub mod stats;
+pub mod td;
 
 use serde::{Deserialize, Serialize};
 use serde_json::{json, Map, Value};
